@@ -342,9 +342,21 @@ func (w *world) step(st State, prev State) (string, error) {
 			w.syncCopied = false
 		}
 		rr := r
-		w.readers[r] = w.s.Spawn("reader:"+r, func() { w.reads[rr] = w.inf.CachedObjects() })
+		w.readers[r] = w.s.Spawn("reader:"+r, func() {
+			if rr == "sync" {
+				// as taskHandleHookRun does for a Synchronization: what was saved so far is dropped, then the hook run reads
+				// its snapshots; every other reader only reads
+				w.inf.DropSavedEvents()
+				w.s.Hook("rd.afterDrop")
+			}
+			w.reads[rr] = w.inf.CachedObjects()
+		})
 		w.procs = append(w.procs, w.readers[r])
-	case "GC_CopyReset":
+	case "GC_Drop":
+		r := fmt.Sprint(a[1])
+		actor = "reader:" + r
+		err = expectGate(w.readers[r], "rd.afterDrop")
+	case "GC_CopyReset", "GC_CopyOnly":
 		r := fmt.Sprint(a[1])
 		actor = "reader:" + r
 		err = expectGate(w.readers[r], "done")
@@ -429,7 +441,7 @@ func (w *world) probeBlocked(st State) string {
 	}
 	for r, pc := range st["rpc"].(map[string]interface{}) {
 		p := w.readers[r]
-		if (fmt.Sprint(pc) == "want" || fmt.Sprint(pc) == "reset") && p != nil && !p.InFlight && !p.Done {
+		if fmt.Sprint(pc) == "want" && r == "sync" && p != nil && !p.InFlight && !p.Done {
 			if g := w.s.Probe(p, 2*time.Millisecond); g != "BLOCKED" {
 				return fmt.Sprintf("reader %s went on to %s while enableKubeEventCb was replaying its buffer", r, g)
 			}
